@@ -5,11 +5,14 @@
   Shape (DESIGN §4 C20, §5):
    * the generic theorems of `Proofs/Footprint.lean` hold for ALL programs (any sequence of constructions with any
      options and of API calls on any instances) and ALL interleavings (any number of goroutines, any schedule);
-   * their hypotheses are `decide`d here on the generated lists.  The unchanged source has hidden writes
-     (F-C20a…e), so the hypotheses are stated as EXACT lists: `hidden_exact`, `undisciplined_exact`.  A new hidden
-     write, a dropped eager initialisation, a lock that no longer covers a write, … changes the generated list,
-     the `decide` fails and the error names the list (and through it the site); a repaired finding also changes the
-     list, which forces the `…_partial` theorems to be strengthened and the witness theorems to be deleted.
+   * their hypotheses are `decide`d here on the generated lists.  The hypotheses are stated as EXACT lists:
+     `hidden_exact`, `undisciplined_exact`.  A new hidden write, a dropped eager initialisation, a lock that no longer
+     covers a write, … changes the generated list, the `decide` fails and the error names the list (and through it
+     the site); a repaired finding also changes the list.
+   * The findings F-C20a, b, c, d, f, g are repaired in the source (Model/C20Known.lean): no package-level variable
+     is written by any program (`c20_package_defaults_unchanged`, full strength), and of the caller-supplied objects
+     only the spare capacity of option / audience slices (class E) and the call-local JWKS decode target remain
+     excluded (`c20_supplied_objects_unchanged`, the `…_partial` theorems).
 -/
 import OidcModel.Proofs.Footprint
 import OidcModel.Generated.Footprint
@@ -54,7 +57,8 @@ theorem provider_read_only :
 /-- **C20, defaults and supplied objects (partial)**: for EVERY program — any order of constructing providers, relying
     parties, resource servers, token exchangers and key sets with any options, interleaved with any API calls on any of
     them — every package-level variable and every caller-supplied object other than the audited cells
-    (F-C20a…e) has, after the program, exactly the value it had before. -/
+    (class E: spare capacity of option / audience slices; the call-local JWKS decode target) has, after the program,
+    exactly the value it had before. -/
 theorem c20_globals_unchanged_partial (prog : List Step) (m m' : Mem) (h : RunRel Gen.facts prog m m')
     (c : Cell) (hs : c.shared = true) (hk : c ∉ knownCells) : m' c = m c := by
   apply run_shared_frame Gen.facts prog m m' h c hs
@@ -66,8 +70,37 @@ theorem c20_globals_unchanged_partial (prog : List Step) (m m' : Mem) (h : RunRe
   have := hx.1 p hp
   exact List.mem_map.mpr ⟨p, by simpa using this, rfl⟩
 
+/-- no audited cell is a package-level variable -/
+theorem knownCells_no_global (g : String) (p : List String) : Cell.global g p ∉ knownCells := by
+  simp [knownCells, knownHidden, knownE, auditedHidden]
+
+/-- **C20, package-level defaults (full strength)**: for EVERY program — any order of constructing providers (with any
+    `WithCustom*Endpoint(s)` options), relying parties, resource servers, token exchangers and key sets, interleaved with
+    any API calls (including `EndSession` / `RevokeToken`) — EVERY package-level variable of the library
+    (`op.DefaultEndpoints`, `httphelper.DefaultHTTPClient`, …) has, after the program, exactly the value it had before.
+    No exclusion. -/
+theorem c20_package_defaults_unchanged (prog : List Step) (m m' : Mem) (h : RunRel Gen.facts prog m m')
+    (g : String) (p : List String) : m' (.global g p) = m (.global g p) :=
+  c20_globals_unchanged_partial prog m m' h (.global g p) rfl (knownCells_no_global g p)
+
+/-- the element types of the slices whose spare capacity may be written (class E) and the call-local decode target -/
+def exemptTypes : List String := ["[]rp.VerifierOption", "[]string", "[]op.ServerOption", "rp.jsonWebKeySet"]
+
+/-- **C20, caller-supplied objects**: for every program, every object handed in by a caller — the `*http.Client`
+    (also the one reached through `caller.HttpClient()`), the `*oauth2.Config`, a `DeviceAuthorizationState`, a `[]byte` —
+    is unchanged, with the only exception of the slice types of class E and the decode target (`exemptTypes`). -/
+theorem c20_supplied_objects_unchanged (prog : List Step) (m m' : Mem) (h : RunRel Gen.facts prog m m')
+    (t : String) (p : List String) (ht : t ∉ exemptTypes) : m' (.supplied t p) = m (.supplied t p) := by
+  apply c20_globals_unchanged_partial prog m m' h (.supplied t p) rfl
+  intro hmem
+  apply ht
+  simp [knownCells, knownHidden, knownE, auditedHidden] at hmem
+  simp only [exemptTypes, List.mem_cons]
+  rcases hmem with h | h | h | h <;> simp [h.1]
+
 /-- **C20, isolation (partial)**: a step that constructs or uses instance `i` changes no field of any other instance `j`,
-    and (previous theorem) no shared cell outside the audited ones — so whatever another instance reads is unchanged. -/
+    no package-level variable, and no caller-supplied object outside the audited cells (class E) — so whatever another
+    instance reads is unchanged. -/
 theorem c20_instances_isolated_partial (st : Step) (m m' : Mem) (h : StepRel Gen.facts st m m') (c : Cell)
     (hc : (∃ j t f, c = .own j t f ∧ j ≠ st.inst.id) ∨ (c.shared = true ∧ c ∉ knownCells)) : m' c = m c := by
   rcases hc with ⟨j, t, f, rfl, hj⟩ | ⟨hs, hk⟩
@@ -95,32 +128,66 @@ theorem c20_model_satisfies_monitor (F : Facts) (st : Step) (h : (stepCells F st
     monitor (modelObs F st) = none := by
   simp [modelObs, monitor, h]
 
-/-! ## witnesses: the full statement is FALSE for the unchanged source (DESIGN §5, F-C20a…e) -/
+/-- the model never observes a changed package-level default, for any step (this was F-C20a / F-C20b) -/
+theorem c20_model_never_changes_defaults (st : Step) : (modelObs Gen.facts st).globalsChanged = [] := by
+  simp only [modelObs, List.map_eq_nil_iff, List.filter_eq_nil_iff, List.mem_filter]
+  rintro c ⟨hc, hs⟩
+  have hmem := stepCells_hidden Gen.facts st c hc hs
+  have hx := hidden_exact
+  simp only [sameSet, Bool.and_eq_true, List.all_eq_true] at hx
+  obtain ⟨p, hp, rfl⟩ := List.mem_map.mp hmem
+  have hk : p.2 ∈ knownCells := List.mem_map.mpr ⟨p, by simpa using hx.1 p hp, rfl⟩
+  cases hq : p.2 with
+  | global g q => exact absurd (hq ▸ hk) (knownCells_no_global g q)
+  | supplied t q => simp
+  | own i t f => simp
+
+/-! ## the repaired findings: the steps that used to violate the property touch no shared cell any more
+    (concrete regression facts on the regenerated lists; reverting a repair in the source makes the corresponding
+    `decide` — and `hidden_exact` — fail) -/
 
 def provCustom : Inst := { id := 2, ty := "op.Provider", entry := "op.NewProvider", opts := ["op.WithCustomAuthEndpoint"] }
+def provCustomAll : Inst :=
+  { id := 2, ty := "op.Provider", entry := "op.NewProvider", opts := ["op.WithCustomEndpoints", "op.WithCustomIntrospectionEndpoint", "op.WithCustomDeviceAuthorizationEndpoint"] }
 def rpDefault : Inst := { id := 1, ty := "rp.relyingParty", entry := "rp.NewRelyingPartyOIDC", opts := [] }
 def rpOwnClient : Inst := { id := 1, ty := "rp.relyingParty", entry := "rp.NewRelyingPartyOIDC", opts := ["rp.WithHTTPClient"] }
 def rpOAuth : Inst := { id := 1, ty := "rp.relyingParty", entry := "rp.NewRelyingPartyOAuth", opts := ["rp.WithAuthStyle"] }
 def rpVOpts : Inst := { id := 1, ty := "rp.relyingParty", entry := "rp.NewRelyingPartyOIDC", opts := ["rp.WithVerifierOpts", "rp.WithSigningAlgsFromDiscovery"] }
 def devState : Inst := { id := 3, ty := "op.Provider", entry := "op.NewProvider", opts := [] }
 
-/-- F-C20a: creating a provider with a custom authorization endpoint writes the shared default -/
-theorem c20a_witness :
-    Cell.global "op.DefaultEndpoints" ["Authorization"] ∈ stepCells Gen.facts ⟨.construct, "op.NewProvider", provCustom⟩ := by decide +kernel
+/-- F-C20a repaired: a provider with custom endpoints writes only its own `endpoints` -/
+theorem c20a_repaired :
+    (stepCells Gen.facts ⟨.construct, "op.NewProvider", provCustom⟩).filter Cell.shared = [] ∧
+    (stepCells Gen.facts ⟨.construct, "op.NewProvider", provCustomAll⟩).filter Cell.shared = [] ∧
+    Cell.own 2 "op.Provider" "endpoints" ∈ stepCells Gen.facts ⟨.construct, "op.NewProvider", provCustom⟩ := by decide +kernel
 
-/-- F-C20b: a logout call writes `CheckRedirect` of the package default client / of the caller's client -/
-theorem c20b_witness :
-    Cell.global "http.DefaultHTTPClient" ["CheckRedirect"] ∈ stepCells Gen.facts ⟨.call, "rp.EndSession", rpDefault⟩ ∧
-    Cell.supplied "http.Client" ["CheckRedirect"] ∈ stepCells Gen.facts ⟨.call, "rp.RevokeToken", rpOwnClient⟩ := by decide +kernel
+/-- F-C20b repaired: logout / revocation calls write neither the package default client nor the caller's client -/
+theorem c20b_repaired :
+    stepCells Gen.facts ⟨.call, "rp.EndSession", rpDefault⟩ = [] ∧
+    stepCells Gen.facts ⟨.call, "rp.RevokeToken", rpOwnClient⟩ = [] ∧
+    stepCells Gen.facts ⟨.call, "client.CallEndSessionEndpoint", rpOwnClient⟩ = [] ∧
+    stepCells Gen.facts ⟨.call, "client.CallRevokeEndpoint", rpOwnClient⟩ = [] := by decide +kernel
 
-/-- F-C20c: a getter writes the object it is called on -/
-theorem c20c_witness :
-    Cell.supplied "op.DeviceAuthorizationState" ["Audience"] ∈
-      stepCells Gen.facts ⟨.call, "op.DeviceAuthorizationState.GetAudience", devState⟩ := by decide +kernel
+/-- F-C20c repaired: the getter writes nothing -/
+theorem c20c_repaired :
+    stepCells Gen.facts ⟨.call, "op.DeviceAuthorizationState.GetAudience", devState⟩ = [] := by decide +kernel
 
-/-- F-C20d / class E: constructors write caller-supplied objects -/
-theorem c20de_witness :
-    Cell.supplied "oauth2.Config" ["Endpoint", "AuthStyle"] ∈ stepCells Gen.facts ⟨.construct, "rp.NewRelyingPartyOAuth", rpOAuth⟩ ∧
+/-- F-C20d repaired: `NewRelyingPartyOAuth` with `WithAuthStyle` writes the auth style into its own copy of the config -/
+theorem c20d_repaired :
+    (stepCells Gen.facts ⟨.construct, "rp.NewRelyingPartyOAuth", rpOAuth⟩).filter Cell.shared = [] ∧
+    Cell.own 1 "rp.relyingParty" "oauthConfig" ∈ stepCells Gen.facts ⟨.construct, "rp.NewRelyingPartyOAuth", rpOAuth⟩ := by decide +kernel
+
+/-- F-C20f / F-C20g repaired: `ConcatenateJSON` and the option returned by `WithIssuerFromCustomHeaders` write nothing the
+    caller owns -/
+theorem c20fg_repaired :
+    stepCells Gen.facts ⟨.call, "http.ConcatenateJSON", devState⟩ = [] ∧
+    stepCells Gen.facts ⟨.call, "op.WithIssuerFromCustomHeaders$ret", devState⟩ = [] ∧
+    stepCells Gen.facts ⟨.call, "op.WithIssuerFromCustomHeaders", devState⟩ = [] := by decide +kernel
+
+/-! ## witnesses: what is still excluded really is written (class E, DESIGN §5) -/
+
+/-- class E: a constructor appends to a slice that may share its backing array with the caller's slice -/
+theorem c20e_witness :
     Cell.supplied "[]rp.VerifierOption" ["[]"] ∈ stepCells Gen.facts ⟨.construct, "rp.NewRelyingPartyOIDC", rpVOpts⟩ := by decide +kernel
 
 /-- the audited sites really make the unrestricted source fail the discipline check -/
@@ -132,8 +199,15 @@ theorem c20_full_discipline_fails : disciplined Gen.facts = false := by decide +
 example : monitor (modelObs Gen.facts ⟨.construct, "op.NewProvider", { provCustom with opts := ["op.WithAllowInsecure", "op.WithLogger"] }⟩) = none := by decide +kernel
 example : monitor (modelObs Gen.facts ⟨.construct, "rp.NewRelyingPartyOIDC", rpOwnClient⟩) = none := by decide +kernel
 example : monitor (modelObs Gen.facts ⟨.call, "rp.CodeExchange", rpDefault⟩) = none := by decide +kernel
-/-- … and the monitor rejects the model's own observation of F-C20a -/
-example : monitor (modelObs Gen.facts ⟨.construct, "op.NewProvider", provCustom⟩) = some "package-default-changed" := by decide +kernel
+/-- the formerly violating steps (F-C20a, b, d) now satisfy the monitor -/
+example : monitor (modelObs Gen.facts ⟨.construct, "op.NewProvider", provCustom⟩) = none := by decide +kernel
+example : monitor (modelObs Gen.facts ⟨.call, "rp.EndSession", rpDefault⟩) = none := by decide +kernel
+example : monitor (modelObs Gen.facts ⟨.construct, "rp.NewRelyingPartyOAuth", rpOAuth⟩) = none := by decide +kernel
+/-- … and the monitor rejects the model's own observation of a class-E step, and an observed change of a package default -/
+example : monitor (modelObs Gen.facts ⟨.construct, "rp.NewRelyingPartyOIDC", rpVOpts⟩) = some "supplied-object-changed" := by decide +kernel
+example : monitor { globalsChanged := ["op.DefaultEndpoints.Authorization"], suppliedChanged := [], behaviourChanged := [], othersChanged := [], races := 0, panicked := false } = some "package-default-changed" := by decide
+/-- logout and revocation no longer take part in a race with the other calls of the same relying party -/
+example : mayRace rest [⟨.call, "rp.EndSession", rpDefault⟩, ⟨.call, "rp.RevokeToken", rpDefault⟩, ⟨.call, "rp.CodeExchange", rpDefault⟩] = false := by decide +kernel
 /-- the lazily initialised RP fields are not written by API calls (constructor initialised them), the key-set cache is written under its mutex -/
 example : mayRace rest [⟨.call, "rp.CodeExchange", rpDefault⟩, ⟨.call, "rp.Userinfo", rpDefault⟩] = false := by decide +kernel
 example : (stepSegs rest ⟨.call, "rp.CodeExchange", rpDefault⟩).length > 0 := by decide +kernel
